@@ -109,7 +109,7 @@ static void probe_dict(const uint8_t *s, size_t len) {
     vh_count("cases", 1);
 }
 
-static int elias_light = 0; /* quick tier: thinner (bits, capacity) grid on deviations */
+static int elias_light = 0; /* deviations section: thinner (bits, capacity) grid (5 bit counts x 2 capacities); the strings section uses the full 9 x 3 grid */
 static void probe_elias(const uint8_t *s, size_t len) {
     if (len == 0) {
         return;
@@ -119,13 +119,13 @@ static void probe_elias(const uint8_t *s, size_t len) {
         const char *api = delta ? "elias.DeltaDecodeArray" : "elias.GammaDecodeArray";
         for (int bi = 0; bi <= 8; bi++) {
             /* declared bits: 8*len, 8*len-1 ... 8*len-7, and 0; buffer holds ceil(bits/8) bytes */
-            if (!vh_thorough && elias_light && !(bi == 0 || bi == 1 || bi == 3 || bi == 7 || bi == 8)) {
+            if (elias_light && !(bi == 0 || bi == 1 || bi == 3 || bi == 7 || bi == 8)) {
                 continue;
             }
             size_t bits = bi == 8 ? 0 : 8 * len - (size_t)bi;
             size_t nbytes = (bits + 7) / 8;
             for (int mi = 0; mi < 3; mi++) {
-                if (!vh_thorough && elias_light && mi == 1) {
+                if (elias_light && mi == 1) {
                     continue;
                 }
                 size_t r[2] = {0, 0};
@@ -357,7 +357,7 @@ static void deviations(const char *codec, const uint8_t *enc, size_t len, void (
             m[i] = A12[a];
             snprintf(cur_desc, sizeof cur_desc, "%s byte %zu := %02x in %s", codec, i, A12[a], vh_hex(enc, len));
             probe(m, len);
-            if (two && len <= 24) {
+            if (two && len <= 14) {
                 for (size_t j = i + 1; j < len; j++) {
                     for (int b = 0; b < 12; b += 3) {
                         uint8_t keep = m[j];
@@ -407,11 +407,15 @@ static void run_deviations(void) {
             tmp[i] = it.v[i] ? it.v[i] : 1;
         }
         varintEliasMeta em;
-        if (n <= 24) {
+        if (n <= 12) {
             len = varintEliasGammaEncodeArray(encbuf, tmp, n, &em);
-            deviations("gamma", encbuf, len, probe_elias, 0);
+            if (len <= 64) {
+                deviations("gamma", encbuf, len, probe_elias, 0);
+            }
             len = varintEliasDeltaEncodeArray(encbuf, tmp, n, &em);
-            deviations("delta", encbuf, len, probe_elias, 0);
+            if (len <= 64) {
+                deviations("delta", encbuf, len, probe_elias, 0);
+            }
         }
         len = varintRLEEncode(encbuf, it.v, n, NULL);
         deviations("rle", encbuf, len, probe_rle, vh_thorough);
